@@ -18,6 +18,8 @@ import re
 from ..frontend import AnalysisBroken
 
 CALLEE_SAVED = ("rbx", "rbp", "r12", "r13", "r14", "r15")       # SysV psABI 3.2.1
+REG32 = {"eax": "rax", "ebx": "rbx", "ecx": "rcx", "edx": "rdx", "esi": "rsi", "edi": "rdi", "ebp": "rbp", "r8d": "r8",
+         "r9d": "r9", "r10d": "r10", "r11d": "r11", "r12d": "r12", "r13d": "r13", "r14d": "r14", "r15d": "r15"}
 REG64 = {"rax", "rbx", "rcx", "rdx", "rsi", "rdi", "rbp", "rsp", "r8", "r9", "r10", "r11", "r12", "r13", "r14", "r15"}
 
 
@@ -71,6 +73,8 @@ class Switch:
         new_off = None
         rdx_written = False
         rsi_written = rdi_written = False
+        skip_until, skipped, skip_mask, zero_of = None, [], None, None
+        scratch, vals = {}, {}
         for addr, mn, ops, raw in self.insns:
             if phase == "save":
                 if mn in ("pushf", "pushfq"):
@@ -157,7 +161,95 @@ class Switch:
                 else:
                     raise AnalysisBroken("context switch: unexpected instruction between save and switch '%s'" % raw)
             elif phase == "restore":
-                if mn == "pop":
+                if skip_until is not None and addr == skip_until:
+                    # end of a conditionally skipped region: it may hold the MXCSR reload and nothing else
+                    only_ld = [i_ for i_ in skipped if i_[1] != "ldmxcsr"]
+                    if only_ld:
+                        raise AnalysisBroken("context switch: a conditional jump skips '%s' in the restore sequence" % only_ld[0][3])
+                    CONTROL = 0xffc0
+                    if skip_mask is None:
+                        raise AnalysisBroken("context switch: the condition that skips the MXCSR reload is not understood")
+                    if (skip_mask & CONTROL) != CONTROL:
+                        self.findings.append(("restore:mxcsr-conditional", "MXCSR is reloaded only when the live and the saved value "
+                                              "differ in the bits 0x%x; the control bits are 0x%x (exception masks 0x1f80, rounding "
+                                              "control 0x6000, flush-to-zero 0x8000, denormals-are-zero 0x0040): a context whose "
+                                              "bits 0x%x differ from the previous one's resumes with the other context's rounding "
+                                              "mode / FTZ / DAZ" % (skip_mask, CONTROL, CONTROL & ~skip_mask)))
+                    skip_until = None
+                if skip_until is not None:
+                    skipped.append((addr, mn, ops, raw))
+                    if mn != "ldmxcsr":
+                        continue
+                if mn == "stmxcsr":
+                    mo = memop(ops[0])
+                    if not mo or mo[1] != "rsp":
+                        raise AnalysisBroken("context switch: unsupported stmxcsr operand in restore '%s'" % raw)
+                    tgt = new_off + mo[2]
+                    item = self.saved.get(tgt)
+                    if item not in (None, "pad") or any(self.saved.get(tgt + b_) not in (None, "pad") for b_ in (0,)) or \
+                            (self.saved.get(tgt - 4) == "mxcsr" and False):
+                        self.findings.append(("restore:slot-overwritten", "the live MXCSR is stored over frame offset %d, which holds %s "
+                                              "that is still to be restored" % (tgt, _show(item))))
+                    scratch[tgt] = ("live",)
+                elif mn == "mov" and ops[0] in REG32 and memop(ops[1]) and memop(ops[1])[1] == "rsp":
+                    o_ = new_off + memop(ops[1])[2]
+                    vals[ops[0]] = scratch.get(o_) or (("saved",) if self.saved.get(o_) == "mxcsr" else None)
+                    r64 = REG32[ops[0]]
+                    if r64 in CALLEE_SAVED:
+                        self.findings.append(("restore:clobbered", "%s is overwritten after it was restored (%s)" % (r64, raw)))
+                    if r64 == "rdx":
+                        rdx_written = True
+                elif mn in ("xor", "and") and ops[0] in REG32:
+                    a_ = vals.get(ops[0])
+                    if memop(ops[1]) and memop(ops[1])[1] == "rsp":
+                        o_ = new_off + memop(ops[1])[2]
+                        b_ = scratch.get(o_) or (("saved",) if self.saved.get(o_) == "mxcsr" else None)
+                    elif ops[1] in REG32:
+                        b_ = vals.get(ops[1])
+                    else:
+                        try:
+                            b_ = int(ops[1], 0)
+                        except ValueError:
+                            b_ = None
+                    if mn == "xor":
+                        vals[ops[0]] = ("xor", a_, b_) if a_ is not None and b_ is not None and not isinstance(b_, int) else None
+                    else:
+                        vals[ops[0]] = ("and", a_, b_) if a_ is not None and isinstance(b_, int) else None
+                    r64 = REG32[ops[0]]
+                    if r64 in CALLEE_SAVED:
+                        self.findings.append(("restore:clobbered", "%s is overwritten after it was restored (%s)" % (r64, raw)))
+                    if r64 == "rdx":
+                        rdx_written = True
+                elif mn == "test" and ops[0] in REG32:
+                    a_ = vals.get(ops[0])
+                    if ops[1] in REG32:
+                        zero_of = a_ if ops[1] == ops[0] else None
+                    else:
+                        try:
+                            zero_of = ("and", a_, int(ops[1], 0)) if a_ is not None else None
+                        except ValueError:
+                            zero_of = None
+                elif mn == "cmp" and ops[0] in REG32 and ops[1] in REG32:
+                    a_, b_ = vals.get(ops[0]), vals.get(ops[1])
+                    zero_of = None
+                    if a_ and b_ and a_[0] == "and" and b_[0] == "and" and a_[2] == b_[2] and {a_[1], b_[1]} == {("live",), ("saved",)}:
+                        zero_of = ("and", ("xor", ("live",), ("saved",)), a_[2])
+                elif mn in ("je", "jz"):
+                    try:
+                        skip_until = int(ops[0].split()[0], 16)
+                    except (ValueError, IndexError):
+                        raise AnalysisBroken("context switch: jump target not understood '%s'" % raw)
+                    if skip_until <= addr:
+                        raise AnalysisBroken("context switch: backward jump '%s'" % raw)
+                    skipped = []
+                    skip_mask = None
+                    z = zero_of
+                    if z is not None and z[0] == "xor" and {z[1], z[2]} == {("live",), ("saved",)}:
+                        skip_mask = 0xffffffff
+                    elif z is not None and z[0] == "and" and z[1] is not None and z[1][0] == "xor" and \
+                            {z[1][1], z[1][2]} == {("live",), ("saved",)}:
+                        skip_mask = z[2]
+                elif mn == "pop":
                     item = self.saved.get(new_off)
                     self.restored[new_off] = ("reg", ops[0])
                     if item != ("reg", ops[0]):
